@@ -9,6 +9,7 @@ import PrioModel.IdpfExec
 import PrioModel.Poly
 import PrioModel.Flp
 import PrioModel.Prio3
+import PrioModel.Ctor
 
 /-! Line-protocol driver: one request per line on stdin, one answer per line on stdout. -/
 open Prio
@@ -618,8 +619,104 @@ def handleP3 (args : List String) : String :=
                 | .panic => "panic"
               | none => "undecodable"
           | _, _, _ => "bad-op"
+        -- the same operations on structured arguments (C16: shares no codec would produce)
+        | "vinitraw", [key, id, nonce, pub, kind, a, b, blind] =>
+          let blindO : Option (Option (List Nat)) := if blind == "none" then some none else (parseHex blind).map some
+          let share : Option (Prio3.InputShare (Fin (q + 1))) :=
+            match kind, blindO with
+            | "L", some bl => do pure (.leader (← hexVec q sz a) (← hexVec q sz b) bl)
+            | "H", some bl => do pure (.helper (← parseHex a) bl)
+            | _, _ => none
+          match parseHex key, id.toNat?, parseHex nonce, parseHex pub, share with
+          | some k, some id, some n, some pb, some share =>
+            let pp : Option (List (List Nat)) :=
+              if pb.isEmpty then none else some ((List.range (pb.length / ss)).map fun i => (pb.drop (i * ss)).take ss)
+            match Prio3.verifyInit C cfg cv xof slw k ctx id n pp share with
+            | .ok (st, sh) => s!"ok {toHex (encState st)} {toHex (encVShare sh)}"
+            | .err => "err"
+            | .panic => "panic"
+          | _, _, _, _, _ => "bad-op"
+        | "vmsgraw", shares =>
+          let dec (h : String) : Option (Prio3.VerifierShare (Fin (q + 1))) :=
+            match h.splitOn "/" with
+            | [v, part] => do
+              let vs ← hexVec q sz v
+              let po ← (if part == "none" then some none else (parseHex part).map some)
+              pure ⟨vs, po⟩
+            | _ => none
+          match (if shares == ["-"] then some [] else shares.mapM dec) with
+          | some shs =>
+            match Prio3.sharesToMessage C cfg xof ctx shs with
+            | .ok m => "ok " ++ toHex (m.getD [])
+            | .err => "err"
+            | .panic => "panic"
+          | none => "bad-op"
+        | "vnextraw", [id, kind, shareh, seedh, msgh] =>
+          let seedO : Option (Option (List Nat)) := if seedh == "none" then some none else (parseHex seedh).map some
+          let msgO : Option (Option (List Nat)) := if msgh == "none" then some none else (parseHex msgh).map some
+          let share : Option (Sum (List (Fin (q + 1))) (List Nat)) :=
+            if kind == "L" then (hexVec q sz shareh).map .inl else (parseHex shareh).map .inr
+          match id.toNat?, share, seedO, msgO with
+          | some id, some sh, some sd, some mg =>
+            let st : Prio3.VerifyState (Fin (q + 1)) := ⟨sh, sd, id, t.verifierLen * np⟩
+            match Prio3.verifyNext C cfg cv xof slw ctx st mg with
+            | .ok o => "ok " ++ toHex (Prio3.encVec cfg cv o)
+            | .err => "err"
+            | .panic => "panic"
+          | _, _, _, _ => "bad-op"
         | _, _ => "bad-op"
     | _, _, _, _, _, _, _ => "bad-op"
+  | _ => "bad-op"
+
+def showCtor (r : Ctor.CRes Flp.TypeSpec) : String :=
+  match r with
+  | .ok t =>
+    if Ctor.usable t then
+      s!"ok {t.inputLen} {t.proofLen} {t.verifierLen} {t.jointRandLen} {t.evalOutputLen} {t.proveRandLen} {t.queryRandLen} {t.outputLen}"
+    else "unusable"
+  | .err => "err"
+  | .panic => "panic"
+
+def showUnit (r : Ctor.CRes Unit) : String :=
+  match r with
+  | .ok _ => "ok"
+  | .err => "err"
+  | .panic => "panic"
+
+def parseNatList (s : String) : Option (List Nat) :=
+  if s == "-" then some [] else (s.splitOn ",").mapM String.toNat?
+
+def handleC16 (args : List String) : String :=
+  match args with
+  | ["p3new", na, np] =>
+    match na.toNat?, np.toNat? with
+    | some a, some b => showUnit (Ctor.prio3New a b)
+    | _, _ => "bad-op"
+  | ["prio2new", n] =>
+    match n.toNat? with
+    | some n => showUnit (Ctor.prio2New n)
+    | none => "bad-op"
+  | "ctor" :: f :: kind :: nums =>
+    match nums.mapM String.toNat? with
+    | none => "bad-op"
+    | some ns => withField f fun q _ =>
+      let p := q + 1
+      match kind, ns with
+      | "sum", [m] => showCtor (Ctor.sumNew p m)
+      | "avg", [m] => showCtor (Ctor.sumNew p m)
+      | "hist", [l, c] => showCtor (Ctor.histNew l c)
+      | "mhot", [b, w, c] => showCtor (Ctor.mhotNew p b w c)
+      | "svec", [m, l, c] => showCtor (Ctor.svecNew p m l c)
+      | "l1", [m, l, c] => showCtor (Ctor.l1New p m l c)
+      | _, _ => "bad-op"
+  | ["encm", f, ts, aux, m] =>
+    match parseTypeSpec ts, aux.toNat?, parseNatList m with
+    | some t, some aux, some m => withField f fun q sz =>
+      -- for `Sum` the auxiliary number is the last weight; for `MultihotCountVec`, `max_weight`
+      match Ctor.encodeMeasurement t aux aux m with
+      | some e => "ok " ++ toHex (encodeFieldVec sz (e.map (Fin.ofNat (q + 1))))
+      | none => "err"
+    | _, _, _ => "bad-op"
   | _ => "bad-op"
 
 def handle (line : String) : String :=
@@ -627,6 +724,7 @@ def handle (line : String) : String :=
   | "fp" :: rest => handleFp rest
   | "dec" :: rest => handleDec rest
   | "p3" :: rest => handleP3 rest
+  | "c16" :: rest => handleC16 rest
   | "flp" :: op :: rest => handleFlp op rest
   | "poly" :: op :: rest => handlePoly op rest
   | "idpf" :: rest => handleIdpf rest
